@@ -8,6 +8,11 @@ CHECKS = {
    text="Every history over each template (all permutations of 6-7 blocks with children-before-parents, ties, branches invalid on connect, cross-fork spend graphs, one idle or close+reopen at every position) is executed on the implementation; after every delivery the tip must be the reference's best valid first-seen tip and the decoded UTXO map must equal the replay of that branch. Bounded-exhaustive, not a proof over all block trees.",
    note="trusted: refchain/reftx reference models (independent of gocoin), Go runtime; scripts restricted to OP_1/OP_0 (script semantics are C01); performance-only overlay shrinks chain.BlockMapInitLen",
    design="3/C06"),
+ "C04": dict(dir="c04", level="model_checking", engine="seqx-state",
+   technique="explicit-state exploration: chain states x rule-violating / valid block variants x variant sequences executed on the real chain.Chain; verdict, tip and UTXO dump compared with a reference implementation of the connect rules after every delivery",
+   text="For each reachable chain state of a small set (prefix tip, partially spent multi-output tx, after a depth-2 reorg, after save+reopen) every variant block (one per rule of the statement, each next to a valid twin) and every variant sequence up to depth 2 (thorough 3) is delivered to the implementation; a rule-violating block must never become part of the active chain, a valid one must be connected, and tip + decoded UTXO map must equal the reference after every step (in particular unchanged after a refusal). Subsidy enumerated directly at all halving boundaries.",
+   note="trusted: refchain rule list (MoneyRange, maturity, BIP68, sigop cost, subsidy) written from Bitcoin Core's rules; scripts limited to OP_1/OP_0 and sigop-carrying outputs (script semantics are C01)",
+   design="3/C04"),
 }
 
 ALL = ["C%02d" % i for i in range(1, 21)]
